@@ -50,6 +50,95 @@ def readerAsk (b plen : Nat) : Nat := if b < plen then b else plen
     returned `got` bytes (`err = true`: nothing is charged, the bytes are still returned) -/
 def readerCharge (got : Nat) (err : Bool) : Nat := if err then 0 else got
 
+/-! ## `Writer.Write` / `Reader.Read` against the limiter's admission check and a sink that can fail
+
+  golang.org/x/time/rate `Limiter.wait` (what `WaitN(context.Background(), n)` runs) begins with
+  `if n > burst && limit != Inf { return fmt.Errorf("rate: Wait(n=%d) exceeds limiter's burst %d") }`;
+  with a background context nothing else can fail: the call returns nil after the reservation's delay.
+  frp only ever builds FINITE limiters (`rate.NewLimiter(rate.Limit(float64(limitBytes)), int(limitBytes))`),
+  so a request above one burst makes `Write` / `Read` return that error at once and the tunnel is torn down. -/
+
+/-- `WaitN(ctx, n)` returns nil: `inf` = the limiter's rate is `rate.Inf` -/
+def waitOk (inf : Bool) (b n : Nat) : Bool := inf || decide (n ≤ b)
+
+/-- what `Writer.Write` returned in `err` -/
+inductive WErr where
+  | none   -- nil
+  | wait   -- the error of `limiter.WaitN`
+  | sink   -- the error of `w.w.Write`
+  deriving DecidableEq, Repr
+
+/-- one `Writer.Write(p)` observed from outside -/
+structure WOut where
+  n : Nat                    -- the returned count: the sum of the `nn`
+  err : WErr
+  reqs : List Nat            -- the arguments of the `WaitN` calls, in order (a refused one included)
+  offered : List C01Bytes    -- the arguments of the `w.w.Write` calls, in order
+  room : Nat                 -- bytes the sink below still accepts afterwards
+  deriving DecidableEq, Repr
+
+/-- `Writer.Write` line for line, over a contract-abiding `io.Writer` below that accepts `room` more bytes:
+    `Write(c)` returns `(len(c), nil)` while `len(c) ≤ room`, otherwise `(room, err)`:
+
+      for { end := len(p); if end == 0 {break}; if b < len(p) {end = b}
+            err = w.limiter.WaitN(ctx, end);  if err != nil {return}
+            nn, err = w.w.Write(p[:end]); n += nn;  if err != nil {return}
+            p = p[end:] } -/
+def writeAux (inf : Bool) (b : Nat) : Nat → Nat → C01Bytes → WOut
+  | 0, room, _ => { n := 0, err := .none, reqs := [], offered := [], room := room }
+  | fuel + 1, room, p =>
+    if p.length = 0 then { n := 0, err := .none, reqs := [], offered := [], room := room }
+    else
+      let e := if b < p.length then b else p.length
+      if waitOk inf b e then
+        if e ≤ room then
+          let o := writeAux inf b fuel (room - e) (p.drop e)
+          { n := e + o.n, err := o.err, reqs := e :: o.reqs, offered := p.take e :: o.offered, room := o.room }
+        else { n := room, err := .sink, reqs := [e], offered := [p.take e], room := 0 }
+      else { n := 0, err := .wait, reqs := [e], offered := [], room := room }
+
+def write (inf : Bool) (b room : Nat) (p : C01Bytes) : WOut := writeAux inf b p.length room p
+
+/-- the bytes the sink accepted during one `Write` -/
+def WOut.accepted (o : WOut) : C01Bytes := o.offered.flatten.take o.n
+
+/-- successive `Write` calls on one `limit.Writer` (same limiter, same sink) -/
+def writeMany (inf : Bool) (b : Nat) : Nat → List C01Bytes → List WOut
+  | _, [] => []
+  | room, p :: ps =>
+    let o := write inf b room p
+    o :: writeMany inf b o.room ps
+
+/-- what `Reader.Read` returned in `err` -/
+inductive RErr where
+  | none | eof | wait
+  deriving DecidableEq, Repr
+
+/-- one `Reader.Read(p)` observed from outside -/
+structure ROut where
+  got : C01Bytes          -- `p[:n]`
+  req : Option Nat        -- the argument of `WaitN` if it was called
+  err : RErr
+  deriving DecidableEq, Repr
+
+/-- `Reader.Read` over a stream below that hands out at most `per` bytes per call and `(0, EOF)` once it
+    is exhausted (a `bytes.Reader` / a socket delivering segments):
+    `if b < len(p) {p = p[:b]}; n, err = r.r.Read(p); if err != nil {return}; err = WaitN(ctx, n)`.
+    Returns the observation and what is left of the stream. -/
+def readOnce (inf : Bool) (b plen per : Nat) (src : C01Bytes) : ROut × C01Bytes :=
+  if src.length = 0 then ({ got := [], req := none, err := .eof }, src)
+  else
+    let k := min (readerAsk b plen) per
+    let got := src.take k
+    ({ got := got, req := some got.length, err := if waitOk inf b got.length then .none else .wait }, src.drop k)
+
+/-- `Read` with a `plen`-byte buffer until an error (end-of-stream included) -/
+def readAll (inf : Bool) (b plen per : Nat) : Nat → C01Bytes → List ROut
+  | 0, _ => []
+  | fuel + 1, src =>
+    let x := readOnce inf b plen per src
+    if x.1.err = .none then x.1 :: readAll inf b plen per fuel x.2 else [x.1]
+
 /-! ## x/time/rate, explicit-time API (`ReserveN(now, n)`), integer ticks, `r` tokens per tick -/
 
 structure Res where
